@@ -184,8 +184,10 @@ def iban_generate(a):
 
 
 def bban_from_components(a):
-    o = BBAN.from_components(T(a["cc"]), bank_code=T(a["bank"]), branch_code=T(a["branch"]),
-                             account_code=T(a["acct"]))
+    kw = {"bank_code": T(a["bank"]), "branch_code": T(a["branch"]), "account_code": T(a["acct"])}
+    for name in a.get("omit", []):          # a keyword the caller does not pass at all (= nothing supplied)
+        kw.pop(name + "_code", None)
+    o = BBAN.from_components(T(a["cc"]), **kw)
     return {"val": C(str(o)), "cls": type(o).__name__, "cc": C(o.country_code)}
 
 
